@@ -69,9 +69,11 @@ Variable k_dword_gcd k_word_gcd : Z -> Z -> result Z.
 Variable k_rem_by_word k_rem_by_dword : list Z -> Z -> Z.
 Variable k_gcd_core : list Z -> list Z -> result (list Z).
 (** the kernel contracts *)
-Hypothesis dword_gcd_ok : forall a b, 0 <= a -> 0 <= b ->
+(** (round 4: stated for operands of the kernel's width only - what an as-is model with a fuel bound can
+    meet; the unbounded form of round 3 follows, ubig_gcd_forms_identical below) *)
+Hypothesis dword_gcd_ok : forall a b, 0 <= a < BB * BB -> 0 <= b < BB * BB ->
   k_dword_gcd a b = if (a =? 0) && (b =? 0) then Panic GcdZeroZero else Ok (Z.gcd a b).
-Hypothesis word_gcd_ok : forall a b, 0 < a -> 0 < b -> k_word_gcd a b = Ok (Z.gcd a b).
+Hypothesis word_gcd_ok : forall a b, 0 < a < BB -> 0 < b < BB -> k_word_gcd a b = Ok (Z.gcd a b).
 Hypothesis rem_by_word_ok : forall ws d, wfw ws -> ws <> [] -> 0 < d < BB -> k_rem_by_word ws d = val ws mod d.
 Hypothesis rem_by_dword_ok : forall ws d, wfw ws -> (2 <= length ws)%nat -> BB <= d < BB * BB ->
   k_rem_by_dword ws d = val ws mod d.
@@ -117,7 +119,7 @@ Proof.
       destruct (Z.eqb_spec (val ws mod d) 0) as [E0|E0].
       * exists (Small d). split; [reflexivity|]. cbn [repr_value RingOpsProofs.twf]. split; [|lia].
         symmetry. apply gcd_mod0; assumption.
-      * rewrite (word_gcd_ok (val ws mod d) d ltac:(lia) Pd). cbn [rbind]. eexists. split; [reflexivity|].
+      * rewrite (word_gcd_ok (val ws mod d) d ltac:(lia) ltac:(lia)). cbn [rbind]. eexists. split; [reflexivity|].
         cbn [repr_value RingOpsProofs.twf]. rewrite gcd_mod_l by exact Pd. split; [reflexivity|].
         rewrite Z.gcd_comm. pose proof (gcd_le_l d (val ws) Pd). lia.
     + rewrite (rem_by_dword_ok ws d W ltac:(lia) ltac:(lia)).
@@ -159,7 +161,7 @@ Qed.
 
 (** UBig gcd (and the IBig / mixed forms, which call it on the magnitudes): every ownership form and
     the call with the operands exchanged build the identical canonical Repr of Z.gcd, or all panic *)
-Theorem ubig_gcd_forms_identical : forall o o' x y, twf x -> twf y ->
+Theorem ubig_gcd_forms_identical_b : forall o o' x y, twf x -> twf y ->
   gform o x y = gform o' x y /\ gform o y x = gform o' x y /\ gcd_post x y (gform o x y).
 Proof.
   intros o o' x y Hx Hy. unfold repr_gcd_form. split; [reflexivity|].
@@ -174,6 +176,25 @@ Proof.
 Qed.
 
 End FormsGcd.
+
+(** the statement of round 3 (contracts demanded of the primitive gcd for ALL non-negative operands) *)
+Theorem ubig_gcd_forms_identical : forall w, 8 <= w ->
+  forall (k_dg k_wg : Z -> Z -> result Z) (k_rw k_rd : list Z -> Z -> Z) (k_core : list Z -> list Z -> result (list Z)),
+  (forall a b, 0 <= a -> 0 <= b -> k_dg a b = if (a =? 0) && (b =? 0) then Panic GcdZeroZero else Ok (Z.gcd a b)) ->
+  (forall a b, 0 < a -> 0 < b -> k_wg a b = Ok (Z.gcd a b)) ->
+  (forall ws d, Words.wf w ws -> ws <> [] -> 0 < d < Words.B w -> k_rw ws d = Words.value w ws mod d) ->
+  (forall ws d, Words.wf w ws -> (2 <= length ws)%nat -> Words.B w <= d < Words.B w * Words.B w -> k_rd ws d = Words.value w ws mod d) ->
+  (forall a b, Words.wf w a -> Words.wf w b -> 0 < Words.value w b < Words.value w a ->
+     exists g, k_core a b = Ok g /\ Words.wf w g /\ Words.value w g = Z.gcd (Words.value w a) (Words.value w b)) ->
+  forall o o' x y, twf w x -> twf w y ->
+  let f := repr_gcd_form w k_dg k_wg k_rw k_rd k_core in
+  f o x y = f o' x y /\ f o y x = f o' x y /\ gcd_post w x y (f o x y).
+Proof.
+  intros w Hw k_dg k_wg k_rw k_rd k_core H1 H2 H3 H4 H5 o o' x y Hx Hy.
+  apply (ubig_gcd_forms_identical_b w Hw k_dg k_wg k_rw k_rd k_core); auto.
+  - intros a b Ha Hb. apply H1; lia.
+  - intros a b Ha Hb. apply H2; lia.
+Qed.
 
 (** an executable instance (the specification of the kernels: what the contracts demand) - used
     for the non-vacuity example; the oracle runs C12's as-is models of the primitive gcd instead *)
